@@ -74,6 +74,9 @@ enum Edit {
     PaddingRemove,
     PaddingAdd(u32),
     Oversize,
+    /// an APPLICATION block of exactly (or within a few bytes of) the largest legal size: one edit
+    /// that moves the metadata size by more than the 24-bit size field can express
+    AddMaxApplication(u32),
     CallbackErr,
     Nothing,
 }
@@ -93,7 +96,13 @@ fn draw_edit(ch: &Choices) -> Edit {
         12 => Edit::PaddingAdd(*ch.pick("edit.padadd.n", &[0u32, 8, 300])),
         13 => Edit::Oversize,
         14 => Edit::CallbackErr,
-        _ => Edit::Nothing,
+        _ => {
+            if ch.draw("edit.max", 3) == 0 {
+                Edit::AddMaxApplication(ch.draw("edit.max.below", 4) as u32)
+            } else {
+                Edit::Nothing
+            }
+        }
     }
 }
 
@@ -163,6 +172,14 @@ fn apply_edit(bl: &mut BlockList, e: &Edit, ch: &Choices) -> Result<(), ()> {
                 data: vec![0; (1 << 24) - 2],
             });
             probe("c10_24bit_limit_crossed");
+        }
+        Edit::AddMaxApplication(below) => {
+            // payload = 4-byte id + data = 2^24-1-below
+            bl.insert(Application {
+                id: 0x6d617821,
+                data: vec![3; (1 << 24) - 1 - 4 - *below as usize],
+            });
+            probe("c10_single_edit_delta_above_24bit");
         }
         Edit::CallbackErr => return Err(()),
         Edit::Nothing => {}
@@ -283,12 +300,20 @@ fn run_c10_with(ctx: &mut Ctx, big: bool) -> R {
                 4 => Edit::AddApplication(ch.draw("edit.big.app", 16) as usize),
                 5 => Edit::CommentFit(ch.draw("edit.fit.d", 17) as i64 - 8),
                 6 => Edit::PaddingResize((1u32 << 24) - 1 - ch.draw("edit.big.pad", 6) as u32),
-                _ => Edit::Nothing,
+                _ => {
+                    if ch.draw("edit.big.max", 2) == 0 {
+                        Edit::AddMaxApplication(ch.draw("edit.max.below", 4) as u32)
+                    } else {
+                        Edit::Nothing
+                    }
+                }
             }
         } else {
             draw_edit(&ch)
         };
         let before = ctx.disk.data(cur_file);
+        // megabytes through one-byte transfers would only spend the event budget
+        let ben = if before.len() > 200_000 || matches!(edit, Edit::AddMaxApplication(_)) { Benign::none() } else { ben };
         let rebuilt_file = ctx.disk.create(Vec::new());
         let captured: RefCell<Option<Vec<Block>>> = RefCell::new(None);
         let disk = ctx.disk.clone();
@@ -327,7 +352,7 @@ fn run_c10_with(ctx: &mut Ctx, big: bool) -> R {
                 if after != before {
                     return viol("original-touched", format!("step {step} edit {edit:?}: update_file failed with {e:?} but the original file changed"));
                 }
-                if matches!(edit, Edit::CommentFit(_) | Edit::CommentSet(_) | Edit::CommentRemove | Edit::Nothing | Edit::AddApplication(_) | Edit::PaddingRemove | Edit::PaddingAdd(_) | Edit::DropPictures | Edit::DropApplications) {
+                if matches!(edit, Edit::CommentFit(_) | Edit::CommentSet(_) | Edit::CommentRemove | Edit::Nothing | Edit::AddApplication(_) | Edit::AddMaxApplication(_) | Edit::PaddingRemove | Edit::PaddingAdd(_) | Edit::DropPictures | Edit::DropApplications) {
                     if let CbErr::Flac(t) = &e {
                         if !t.contains("ExcessiveBlockSize") {
                             return viol("meta-mismatch", format!("step {step}: a legal edit {edit:?} was refused: {t}"));
